@@ -350,7 +350,7 @@ package service
 //@   modifies nothing
 
 //@ func TxPool.UnMarkExecuted
-//@   property C17
+//@   property C17 C05
 //@   requires pool != nil && block != nil && block.Header != nil && pool.received != nil && pool.evictedTxs != nil && typeid(pool.executed) != 0 && txPoolLogger != nil
 //@   requires [inputs] forall i int :: 0 <= i && i < len(block.Transactions) ==> block.Transactions[i] != nil
 //@   loop 0: invariant true
